@@ -320,15 +320,6 @@ def OpOk : Op → Prop
   | .accrue _ _ phi _ => P ≤ phi.m
   | _ => True
 
-/-- solvency of the denom an accrual runs on, in the state it runs on -/
-def SupOk (s : St) : Op → Prop
-  | .accrue d _ _ _ => s.reserves d ≤ s.cash d + s.borrowed d
-  | _ => True
-
-def SolventRun : St → List (Cfg × Op) → Prop
-  | _, [] => True
-  | s, x :: t => SupOk s x.2 ∧ SolventRun (applyOp s x) t
-
 theorem step_idxSame (cfg : Cfg) (s s' : St) (op : Op) (hna : ∀ d now phi a, op ≠ .accrue d now phi a)
     (h : step cfg s op = .ok s') : IdxSame s s' := by
   cases op with
@@ -377,12 +368,12 @@ theorem step_brw (cfg : Cfg) (s s' : St) (op : Op) (hop : OpOk op) (hn : ∀ d v
     obtain ⟨a, -, c1, -⟩ := liquidate_idx cfg s s' k b h
     exact ⟨fun d => by rw [a d], fun d v hv => by rcases c1 d v hv with e | e; (· rw [e]; decide); (· exact hn d v e)⟩
 
-theorem step_sup (cfg : Cfg) (s s' : St) (op : Op) (hop : SupOk s op) (hn : ∀ d v, s.supIdx d = some v → 0 ≤ v)
+theorem step_sup (cfg : Cfg) (s s' : St) (op : Op) (hn : ∀ d v, s.supIdx d = some v → 0 ≤ v)
     (h : step cfg s op = .ok s') :
     (∀ d, (s.supIdx d).getD P ≤ (s'.supIdx d).getD P) ∧ (∀ d v, s'.supIdx d = some v → 0 ≤ v) := by
   cases op with
   | accrue d now phi a =>
-    obtain ⟨hoth, hd, -⟩ := accrue_supIdx cfg s s' d now phi a (hn d) hop h
+    obtain ⟨hoth, hd, -⟩ := accrue_supIdx cfg s s' d now phi a (hn d) h
     constructor
     · intro e
       by_cases he : e = d
@@ -421,12 +412,12 @@ theorem applyOp_brw (s : St) (x : Cfg × Op) (hx : OpOk x.2) (hn : ∀ d v, s.br
   | err e => exact ⟨fun d => Int.le_refl _, hn⟩
   | panic => exact ⟨fun d => Int.le_refl _, hn⟩
 
-theorem applyOp_sup (s : St) (x : Cfg × Op) (hx : SupOk s x.2) (hn : ∀ d v, s.supIdx d = some v → 0 ≤ v) :
+theorem applyOp_sup (s : St) (x : Cfg × Op) (hn : ∀ d v, s.supIdx d = some v → 0 ≤ v) :
     (∀ d, (s.supIdx d).getD P ≤ ((applyOp s x).supIdx d).getD P) ∧
     (∀ d v, (applyOp s x).supIdx d = some v → 0 ≤ v) := by
   unfold applyOp
   cases hs : step x.1 s x.2 with
-  | ok s' => exact step_sup x.1 s s' x.2 hx hn hs
+  | ok s' => exact step_sup x.1 s s' x.2 hn hs
   | err e => exact ⟨fun d => Int.le_refl _, hn⟩
   | panic => exact ⟨fun d => Int.le_refl _, hn⟩
 
@@ -443,17 +434,15 @@ theorem run_brw (h : List (Cfg × Op)) (s : St) (hops : ∀ x ∈ h, OpOk x.2)
     have := m d
     omega
 
-theorem run_sup (h : List (Cfg × Op)) (s : St) (hsol : SolventRun s h)
-    (hn : ∀ d v, s.supIdx d = some v → 0 ≤ v) :
+theorem run_sup (h : List (Cfg × Op)) (s : St) (hn : ∀ d v, s.supIdx d = some v → 0 ≤ v) :
     ∀ d, (s.supIdx d).getD P ≤ ((run s h).supIdx d).getD P := by
   induction h generalizing s with
   | nil => intro d; exact Int.le_refl _
   | cons x t ih =>
     intro d
     rw [run_cons]
-    obtain ⟨hx, ht⟩ := hsol
-    obtain ⟨m, n⟩ := applyOp_sup s x hx hn
-    have := ih (applyOp s x) ht n d
+    obtain ⟨m, n⟩ := applyOp_sup s x hn
+    have := ih (applyOp s x) n d
     have := m d
     omega
 
@@ -801,5 +790,123 @@ theorem repay_frame (cfg : Cfg) (s s' : St) (a b : User) (c : Coins) (h : repay 
   · show s1.depIdx v = _; rw [di1]
   · show upd s1.bor b _ v = _; rw [upd_other _ _ _ _ hv, (o1 v hv).1]
   · show upd s1.borIdx b _ v = _; rw [upd_other _ _ _ _ hv, (o1 v hv).2]
+
+/-! ### a position just stored by `Borrow` cannot be liquidated in the same block -/
+
+/-- the records `Borrow` stores -/
+theorem borrow_records (cfg : Cfg) (s s' : St) (u : User) (coins : Coins) (hc : ∀ d, 0 ≤ coins d)
+    (h : borrow cfg s u coins = .ok s') :
+    (∀ d, s'.brwIdx d = if 0 < coins d ∧ (s.brwIdx d).isNone then some P else s.brwIdx d) ∧
+    s'.supIdx = s.supIdx ∧
+    (∀ d ∈ cfg.ds, 0 < s'.bor u d → s'.borIdx u d = some ((s'.brwIdx d).getD 0)) ∧
+    (∀ d ∈ cfg.ds, 0 < s'.dep u d → s'.depIdx u d = some ((s'.supIdx d).getD 0)) := by
+  unfold borrow at h
+  simp only at h
+  split at h
+  · cases h
+  · cases h
+  rename_i s1 h1
+  split at h
+  · cases h
+  · cases h
+  rename_i s2 h2
+  split at h
+  · cases h
+  · cases h
+  split at h
+  · cases h
+  cases h
+  obtain ⟨b1, bi1, g1, -, -, -⟩ := syncSupply_spec cfg _ s1 u h1
+  obtain ⟨d2, di2, g2, -, -, -⟩ := syncBorrow_spec cfg s1 s2 u h2
+  have hbrw : ∀ d, s2.brwIdx d = if 0 < coins d ∧ (s.brwIdx d).isNone then some P else s.brwIdx d := by
+    intro d; rw [g2.2.1, g1.2.1]
+  have hsup : s2.supIdx = s.supIdx := by rw [g2.1, g1.1]
+  refine ⟨hbrw, hsup, ?_, ?_⟩
+  · intro d hd hpos
+    simp only [upd_same] at hpos ⊢
+    by_cases hcd : 0 < coins d
+    · simp only [hcd, ite_true]
+      have := hbrw d
+      simp only [hcd, true_and] at this
+      cases hv : s.brwIdx d with
+      | none => simp [hv] at this; simp [this]
+      | some v => simp [hv] at this; simp [this]
+    · simp only [hcd, ite_false]
+      have hz : coins d = 0 := by have := hc d; omega
+      have hpos2 : 0 < s2.bor u d := by unfold addC at hpos; omega
+      have := syncBorrow_idx cfg s1 s2 u h2 d hd hpos2
+      rw [this, g2.2.1]
+  · intro d hd hpos
+    have hpos1 : 0 < s1.dep u d := by
+      have e : s2.dep u d = s1.dep u d := by rw [d2]
+      have hp : 0 < s2.dep u d := hpos
+      omega
+    have := syncSupply_idx cfg _ s1 u h1 d hd hpos1
+    show s2.depIdx u d = some ((s2.supIdx d).getD 0)
+    rw [di2, this, hsup]
+
+theorem borrow_then_not_liquidatable (cfg : Cfg) (s s' : St) (u : User) (coins : Coins) (hc : ∀ d, 0 ≤ coins d)
+    (hB : ∀ d ∈ cfg.ds, ∀ v, s.brwIdx d = some v → 0 ≤ v ∧ v ≤ P * P)
+    (hS : ∀ d ∈ cfg.ds, ∀ v, s.supIdx d = some v → 0 ≤ v)
+    (h : borrow cfg s u coins = .ok s') : ∀ keeper, (liquidate cfg s' keeper u).isOk = false := by
+  intro keeper
+  cases hl : liquidate cfg s' keeper u with
+  | err e => rfl
+  | panic => rfl
+  | ok s'' =>
+    exfalso
+    obtain ⟨t1, t2, e1, e2, ew⟩ := liquidate_ok_outside cfg s' s'' keeper u hl
+    obtain ⟨s2, hv, ed, eb, -, -⟩ := borrow_ok_spec cfg s s' u coins h
+    have hw : isWithinLtv cfg (s'.dep u) (s'.bor u) = .ok true := by
+      rw [ed, eb]; exact (validateBorrow_ok _ _ _ _ _ _ _ hv).2.2.2.2.2.2
+    obtain ⟨rbrw, rsup, rbi, rdi⟩ := borrow_records cfg s s' u coins hc h
+    obtain ⟨td1, tdi1, tg1, -, -, tf1⟩ := syncBorrow_spec cfg s' t1 u e1
+    obtain ⟨tb2, -, tg2, -, -, tf2⟩ := syncSupply_spec cfg t1 t2 u e2
+    have hPP : P ≤ P * P := by decide
+    have hbor : ∀ d ∈ cfg.ds, t2.bor u d = s'.bor u d := by
+      intro d hd
+      rw [tb2, tf1 d hd]
+      split
+      · rename_i hpos
+        have hidx' := rbi d hd hpos
+        have hnp := syncBorrow_nopanic cfg s' t1 u e1 d hd hpos
+        rw [hidx'] at hnp ⊢
+        unfold syncBorPanics at hnp
+        unfold syncBorAmt
+        simp only at hnp ⊢
+        have hg0 : (s'.brwIdx d).getD 0 ≠ 0 := by
+          intro e; simp [e] at hnp
+        have hgb : 0 ≤ (s'.brwIdx d).getD 0 ∧ (s'.brwIdx d).getD 0 ≤ P * P := by
+          rw [rbrw d]
+          split
+          · simp only [Option.getD_some]; exact ⟨by decide, hPP⟩
+          · cases hv' : s.brwIdx d with
+            | none => simp; have := P_pos; positivity
+            | some v => simpa using hB d hd v hv'
+        rw [interestQM_self _ _ (by omega) (by omega) hgb.2]; omega
+      · rfl
+    have hdep : ∀ d ∈ cfg.ds, t2.dep u d = s'.dep u d := by
+      intro d hd
+      rw [tf2 d hd, td1, tdi1, tg1.1]
+      split
+      · rename_i hpos
+        have hidx' := rdi d hd hpos
+        have hnp := syncSupply_nopanic cfg t1 t2 u e2 d hd (by rw [td1]; exact hpos)
+        rw [tdi1, hidx'] at hnp
+        rw [hidx']
+        unfold syncSupPanics at hnp
+        unfold syncSupAmt
+        simp only at hnp ⊢
+        have hg0 : (s'.supIdx d).getD 0 ≠ 0 := by
+          intro e; simp [e] at hnp
+        have hgb : 0 ≤ (s'.supIdx d).getD 0 := by
+          rw [rsup]
+          cases hv' : s.supIdx d with
+          | none => simp
+          | some v => simpa using hS d hd v hv'
+        rw [interestMQ_self _ _ (by omega) (by omega)]; simp
+      · rfl
+    rw [isWithinLtv_congr cfg _ _ _ _ hdep hbor, hw] at ew
+    cases ew
 
 end KV.Hard
